@@ -480,6 +480,27 @@ def build_project(seed):
         files[f"zz_tables{S}.f90"] = [f"module zz_tables{S}", "implicit none", "integer :: ftable(10) = 0", f"end module zz_tables{S}"]
         units[f"outer_fac{S}"] = {f"inner_fac{S}"}
         units[f"inner_fac{S}"] = set()
+    if rng.random() < 0.6:
+        # type-bound references through the parent component of a parent component (three modules; the grandparent type's name is not
+        # accessible where the leaf type is defined), through a function result whose type the caller cannot name, and a recursive function
+        # whose statement puts BIND(C) before RESULT(...)
+        S = seed % 1000
+        forms.add("grandparent_component_chain_and_function_result_chain")
+        files[f"zg_base{S}.f90"] = [f"module zg_base{S}", "implicit none", "type :: zgbase_t", "integer :: gvals(5) = 0", "contains", f"procedure :: greset => impl_greset{S}",
+                                    f"procedure :: gtotal => impl_gtotal{S}", "end type zgbase_t", "contains", f"subroutine impl_greset{S}(self)", "class(zgbase_t), intent(inout) :: self",
+                                    "self%gvals = 0", f"end subroutine impl_greset{S}", f"integer function impl_gtotal{S}(self)", "class(zgbase_t), intent(in) :: self",
+                                    f"impl_gtotal{S} = 1", f"end function impl_gtotal{S}", f"function zgmake{S}() result(w)", "type(zgbase_t) :: w", "w%gvals = 1", f"end function zgmake{S}",
+                                    f"end module zg_base{S}"]
+        files[f"zg_mid{S}.f90"] = [f"module zg_mid{S}", f"use zg_base{S}", "implicit none", "type, extends(zgbase_t) :: zgmid_t", "integer :: m = 0", "end type zgmid_t", f"end module zg_mid{S}"]
+        files[f"zg_leaf{S}.f90"] = [f"module zg_leaf{S}", f"use zg_mid{S}, only: zgmid_t", f"use zg_base{S}, only: zgmake{S}", "implicit none", "type, extends(zgmid_t) :: zgleaf_t", "integer :: l = 0",
+                                    "end type zgleaf_t", "contains", f"subroutine zgwork{S}(this)", "class(zgleaf_t), intent(inout) :: this", "integer :: k", "call this%zgbase_t%greset()",
+                                    "k = this%zgbase_t%gtotal()", "this%zgbase_t%gvals(2) = k", f"end subroutine zgwork{S}",
+                                    f"recursive function cfact{S}(n) bind(c) result(r)", "integer, value :: n", "integer :: r", "if (n <= 1) then", "r = 1", "else", f"r = n * cfact{S}(n - 1)",
+                                    "end if", f"end function cfact{S}",
+                                    f"subroutine zguser{S}()", f"associate (w => zgmake{S}())", "call w%greset()", "end associate", f"end subroutine zguser{S}", f"end module zg_leaf{S}"]
+        units[f"zgwork{S}"] = {"greset", "gtotal"}
+        units[f"cfact{S}"] = {f"cfact{S}"}
+        units[f"zguser{S}"] = {f"zgmake{S}", "greset"}
     if prog_lines:
         files[f"prog{seed % 1000}.f90"] = prog_lines
     if ext_lines:
